@@ -568,7 +568,7 @@ func checkC15(c *km.Ctx) {
 		}
 		// the cache branch exists: a statement prepared on cacheDB
 		hasCache := false
-		for _, ci := range km.CallsIn(fn) {
+		for _, ci := range callsWithNewHelpers(c, fn, 2) {
 			if km.CalleeFull(ci.Common()) == "(*database/sql.DB).Prepare" && mentionsField(km.CallArgs(ci.Common())[0], "cacheDB") {
 				hasCache = true
 			}
